@@ -9,7 +9,7 @@ from ..gen import prog as P
 from ..gen import render
 from ..oracle import certcheck
 
-KNOBS = {"p_macro": 0.8, "max_macros": 2, "p_loop": 0.8, "p_import": 0.5, "p_segments": 0.5, "p_relocated": 0.5, "max_bytes": 300, "top_stmts": 10}
+KNOBS = {"p_macro": 0.8, "max_macros": 2, "p_loop": 0.8, "p_import": 0.5, "p_segments": 0.5, "p_relocated": 0.5, "max_bytes": 300, "top_stmts": 10, "p_nested_segment": 0.5}
 ROW = re.compile(r"^\s*(\d+) (?:([0-9A-F]{4}):|     ) ?(.*)$")
 
 
@@ -132,6 +132,20 @@ def one_program(acc, probe, rng, cli):
         acc.violation("source-map|definition-mode|%s" % ctxsig, "source map differs: expected-but-absent %s, present-but-unexpected %s" % (miss, extra),
                       {"files": files, "base_pc": prog.base_pc, "missing": miss, "extra": extra})
         return
+    # ---- the address lookup the debugger uses: an address that was emitted exactly once leads back to its entry
+    ents = [e for e in cgA["ctx"]["source_map"] if e["pc1"] > e["pc0"] and "file" in e["span"]]
+    for e in ents:
+        for which, pc in (("lookup0", e["pc0"]), ("lookup1", e["pc1"] - 1)):
+            if sum(1 for x in ents if x["pc0"] <= pc < x["pc1"]) != 1:
+                continue        # emitted more than once (overlapping `* =`): the lookup may answer with either
+            lk = e.get(which)
+            acc.count("address_lookups_checked")
+            ok = isinstance(lk, dict) and "span" in lk and lk["span"].get("o0") == e["span"]["o0"] and lk["span"].get("o1") == e["span"]["o1"] and lk.get("pc0") == e["pc0"]
+            if not ok:
+                acc.violation("address-lookup|%s" % ("not-found" if lk is None else "wrong-entry"),
+                              "address $%04X was emitted by the statement at %s:%d..%d, the address lookup answers %s" % (pc, e["span"]["file"], e["span"]["o0"], e["span"]["o1"], lk),
+                              {"files": files, "base_pc": prog.base_pc, "entry": e})
+                return
     # ---- invocation-site mode + listing
     resB = probe.ask({"files": files, "ops": ["parse", "codegen", "symbols", "source_map", "listing"], "opts": {"pc": prog.base_pc, "move_macro": True, "listing_bytes": nbytes}})
     cgB = resB.get("codegen", {})
